@@ -92,8 +92,23 @@ class Case:
         return p[0] + " " + p[1] if p[0] == "BP" else p[0]
 
 
+SOCKS = os.path.join(vlib.SCRATCH, "c04_socks")
+
+
+def clean_socks():
+    """socket directories of killed workers (harness/src/conn.rs: <VERIF_SCRATCH>/sock_<pid>): remove those whose process is gone"""
+    import shutil
+    for base, pat in ((SOCKS, "sock_"),):
+        if not os.path.isdir(base):
+            continue
+        for d in os.listdir(base):
+            if d.startswith(pat) and d[len(pat):].isdigit() and not os.path.exists("/proc/" + d[len(pat):]):
+                shutil.rmtree(os.path.join(base, d), ignore_errors=True)
+
+
 def run_impl(exe, lines, timeout=1500):
-    ok, outs, err = vlib.par_run_lines(exe, ["run"], lines, timeout=timeout)
+    os.makedirs(SOCKS, exist_ok=True)
+    ok, outs, err = vlib.par_run_lines(exe, ["run"], lines, timeout=timeout, env={"VERIF_SCRATCH": SOCKS})
     if not ok:
         raise vlib.BrokenTie("c04 harness supervisor failed (the supervisor itself must never die)", err)
     res = [Res(o) for o in outs]
@@ -102,7 +117,7 @@ def run_impl(exe, lines, timeout=1500):
     slow = [i for i, r in enumerate(res) if r.status == "timeout" or r.num("us") > 9_000_000]
     again = 0
     for i in slow[:8]:
-        rc, o, _ = vlib.run_lines(exe, ["run"], [lines[i]], timeout=200, env={"C04_DEADLINE_MS": "30000"})
+        rc, o, _ = vlib.run_lines(exe, ["run"], [lines[i]], timeout=200, env={"C04_DEADLINE_MS": "30000", "VERIF_SCRATCH": SOCKS})
         r2 = Res(o[0]) if o else Res("died msg=no_output")
         r2.f["retried_alone"] = "1"
         r2.raw += " retried_alone=1 first=%s" % res[i].status
@@ -122,8 +137,24 @@ def model_status(line):
     return p[0], None
 
 
+K_TYPED_BIG = 12
+BIG = 256 * 1024
+
+
+def is_param_case(case):
+    if case.op == "SC":
+        return case.line.split(" ")[1] in ("up", "bpparam", "bpall", "hd")
+    return case.op in PARAM_OPS or case.line.startswith("UT ParamVariant") or case.op in ("HD", "RXM")
+
+
 def alloc_bound(case, param_size):
-    k = 4 * param_size if case.op in PARAM_OPS or case.line.startswith("UT ParamVariant") or case.op == "HD" else K_TYPED
+    """small inputs: K*len + 64 KiB (the slack dominates); from 256 KiB on the bound is relative: the typed decoders and validation
+    may use 12 x the input (a Vec<String> of 8-byte elements needs 3 x for the elements and 3 x that while it grows), the Param
+    decoders 4 x size_of::<Param>() per input byte"""
+    if is_param_case(case):
+        k = 4 * param_size
+    else:
+        k = K_TYPED if case.inlen < BIG else K_TYPED_BIG
     return k * case.inlen + SLACK
 
 
@@ -131,8 +162,8 @@ def judge(ctx, case, res, build, param_size):
     """the property predicate on the implementation's own output. Returns (why, is_known)"""
     if res.status in CRASH:
         what = "%s [%s build]: %s instead of a value or an error (%s)" % (case.op, build, res.status, res.raw[:160])
-        if (case.selfref_depth or 0) > 64:
-            return what, True
+        if (case.selfref_depth or 0) > 64 and res.status == "overflow":
+            return what, True         # D21: the stack overflow of the uncounted recursion; any other failure there is a violation
         if res.status == "panic" and not case.sigvalid:
             return None, False        # from_parts with a signature that never passed validation: programmer input, excluded
         return what, False
@@ -324,7 +355,7 @@ class Gen:
 
 def gen_cases(ctx, drv, thorough):
     g = Gen(ctx, drv, thorough)
-    return gen_valid(g) + gen_mismatch(g) + gen_nesting(g) + gen_length(g) + gen_random(g) + gen_header(g)
+    return gen_valid(g) + gen_mismatch(g) + gen_nesting(g) + gen_length(g) + gen_random(g) + gen_header(g) + gen_scaling(g)
 
 
 def gen_valid(g):
@@ -568,6 +599,14 @@ def gen_header(g):
             m = header_bytes(bo, b"a{sv}(yy)", b"", hfl=len(whole) - 16 - cut)[:len(whole) - cut]
             m = pad(m, 8)
             cases.append(Case("header:signature", "HD %d %s" % (phase(), hx(m)), len(m), note="signature field truncated by %d" % cut))
+    # every message with a non-empty body cut at EVERY byte position: inside the fixed header, the field array, the padding between
+    # the fields and the body, and the body (the announced body_len stays > 0)
+    for bo in ("le", "be"):
+        for sg, body in (("y", b"\x07"), ("ys", b"\x07\x00\x00\x00" + u32(bo, 1) + b"a\x00"), ("ay", u32(bo, 3) + b"abc")):
+            for flds in (None, [(1, "o", b"/a/b"), (3, "s", b"Member")], [(1, "o", b"/a"), (3, "s", b"M"), (6, "s", b"a.b")]):
+                whole = header_bytes(bo, sg, body, fields=flds)
+                for cut in range(len(whole)):
+                    cases.append(Case("header:cut", "HD %d %s" % (phase(), hx(whole[:cut])), cut, note="message cut at byte %d of %d" % (cut, len(whole))))
     # header field arrays whose bytes are all there: just below / above 2^26 in total while every field is within the array limit
     for bo in ("le", "be"):
         for nf, each in ((2, 100), (2, (1 << 25) - 96), (2, (1 << 25) + 64), (1, MAXA - 64), (1, MAXA + 8)):
@@ -579,6 +618,61 @@ def gen_header(g):
             data[0:4] = bytes([r.choice([108, 66]), r.choice([1, 2, 3, 4]), 0, 1])
         cases.append(Case("header:random", "HD %d %s" % (phase(), hx(bytes(data))), n))
     return cases
+
+
+SCALING = [("vr", ["ay", "ab", "at", "as", "a{tt}", "av"]), ("up", ["ay", "ab", "at", "as", "a{tt}", "av"]),
+           ("ut", ["ay", "ab", "at", "as", "a{tt}", "av"]), ("bpget", ["as", "ay", "a{tt}"]), ("bpparam", ["ay", "as", "av"]),
+           ("bpall", ["ay", "as", "a{tt}"]), ("bpvalidate", ["as", "av", "ab"]), ("hd", ["as", "av", "a{tt}"])]
+
+
+def gen_scaling(g):
+    """valid arrays of n, 2n, 4n, 8n bytes of content through every decoder entry point and several element types: time and heap
+    must grow about linearly (built inside the harness: SC)"""
+    cases = []
+    for entry, elems in SCALING:
+        param = entry in ("up", "bpparam", "bpall")
+        n = (64 if param else 256) * 1024 * (4 if g.thorough else 1)
+        for elem in elems:
+            bo = g.r.choice(["le", "be"])
+            for mult in (1, 2, 4, 8):
+                c = Case("scaling", "SC %s %s %s %d" % (entry, bo, elem, n * mult), n * mult, expect="ok", note="scaling %s %s x%d" % (entry, elem, mult))
+                c.sc = (entry, elem, mult)
+                cases.append(c)
+    return cases
+
+
+def judge_scaling(ctx, cases, results, exe, build):
+    """time(8n)/time(n) and heap(8n)/heap(n) on the CPU time of the decoding call; a suspicious pair is measured again alone"""
+    found = []
+    groups = {}
+    for c, r in zip(cases, results):
+        if getattr(c, "sc", None) and r.status == "ok":
+            groups.setdefault(c.sc[:2], {})[c.sc[2]] = (c, r)
+
+    def excess(r1, r8):
+        t1, t8 = r1.num("dcpu_us"), r8.num("dcpu_us")
+        p1, p8 = r1.num("peak"), r8.num("peak")
+        why = []
+        if t8 > 20_000 and t8 > 24 * max(t1, 50):
+            why.append("CPU time %d us for n, %d us for 8n (x%.0f)" % (t1, t8, t8 / max(t1, 1)))
+        if p8 > (1 << 20) and p8 > 24 * max(p1, 4096):
+            why.append("peak heap %d bytes for n, %d bytes for 8n (x%.0f)" % (p1, p8, p8 / max(p1, 1)))
+        return why
+    ratios = {}
+    for key, g in sorted(groups.items()):
+        if 1 not in g or 8 not in g:
+            continue
+        (c1, r1), (c8, r8) = g[1], g[8]
+        ratios["%s:%s" % key] = [round(r8.num("dcpu_us") / max(r1.num("dcpu_us"), 1), 1), round(r8.num("peak") / max(r1.num("peak"), 1), 1)]
+        why = excess(r1, r8)
+        if why:
+            again = [Res(vlib.run_lines(exe, ["run"], [c.line], timeout=300, env={"VERIF_SCRATCH": SOCKS, "C04_DEADLINE_MS": "60000"})[1][0]) for c in (c1, c8)]
+            why = excess(again[0], again[1]) if all(a.status == "ok" for a in again) else ["re-run: " + " / ".join(a.raw[:80] for a in again)]
+            if why:
+                found.append((1, "SC %s %s [%s build]: more than linear in the input length: %s (alone, twice)" % (key[0], key[1], build, "; ".join(why)),
+                              violation_data(c8, again[1], build)))
+    ctx.extra["scaling_ratios_8n_over_n[time,heap]"] = ratios
+    return found
 
 
 def load_corpus(prop="C04"):
@@ -649,6 +743,7 @@ def evaluate(ctx, cases, builds, drv, param_size, prop="C04"):
                     ctx.disagreements_checked += 1
                     ctx.tie_broken("correspondence: decoder model and implementation disagree on acceptance or length",
                                    "%s\nimpl[%s]: %s\nmodel: %s" % (c.line[:400], build, res.raw, m[:100]))
+    found += judge_scaling(ctx, cases, all_res[builds[0][0]], builds[0][1], builds[0][0])
     report(ctx, found)
     return all_res
 
@@ -720,6 +815,7 @@ def run(ctx):
         ctx.try_proof()
     builds, param_size, info = build_all()
     drv = build_model()
+    clean_socks()
     cases = load_corpus() + gen_cases(ctx, drv, thorough)
     all_res = evaluate(ctx, cases, builds, drv, param_size)
     # observed nesting accepted per entry point (evidence only)
@@ -732,26 +828,26 @@ def run(ctx):
     ctx.extra["builds"] = [b for b, _ in builds]
     ctx.extra["harness_info"] = info
     ctx.extra["stack_probe"] = stack_probe(builds[0][1])
+    clean_socks()
     ctx.extra["phases"] = "every case line carries a memory phase; the counter cycles 0..7 over all lines"
 
 
 def stack_probe(exe):
-    """smallest decoding-thread stack on which 64 resp. 8 nested variants still validate: bytes of stack per level (measured)"""
-    out = {}
-    for op, mk in (("VR", lambda n: "VR le 0 0 v %s" % hx(nested_variants(n))), ("UP", lambda n: "UP le 0 0 0 v %s" % hx(nested_variants(n)))):
-        need = {}
-        for n in (7, 63):
-            lo, hi = 4096, 256 * 1024
-            while hi - lo > 1024:
-                mid = (lo + hi) // 2
-                rc, o, _ = vlib.run_lines(exe, ["run"], [mk(n)], env={"C04_STACK": str(mid)}, timeout=120)
-                if o and o[0].startswith("ok"):
-                    hi = mid
-                else:
-                    lo = mid
-            need[n] = hi
-        out[op] = {"stack_needed_8_levels": need[7], "stack_needed_64_levels": need[63], "bytes_per_level": (need[63] - need[7]) // 56}
-    return out
+    """smallest decoding-thread stack on which 64 resp. 8 nested variants are still decoded by the Param decoder: bytes of stack per
+    level (measured). validate_raw needs less than the smallest stack a thread can have for 64 levels, so it can not be measured
+    this way and is not reported."""
+    need = {}
+    for n in (7, 63):
+        lo, hi = 4096, 256 * 1024
+        while hi - lo > 1024:
+            mid = (lo + hi) // 2
+            rc, o, _ = vlib.run_lines(exe, ["run"], ["UP le 0 0 0 v %s" % hx(nested_variants(n))], env={"C04_STACK": str(mid), "VERIF_SCRATCH": SOCKS}, timeout=120)
+            if o and o[0].startswith("ok"):
+                hi = mid
+            else:
+                lo = mid
+        need[n] = hi
+    return {"UP": {"stack_needed_8_levels": need[7], "stack_needed_64_levels": need[63], "bytes_per_level": (need[63] - need[7]) // 56}}
 
 
 def replay(ctx, body):
